@@ -65,7 +65,7 @@ Definition cevent := (bool * cfault * cdest)%type.     (* write? / fault context
 Definition obs := (nat * nat * oskel)%type.            (* exception code, destination flag, root children *)
 
 Definition faults_of (cf : cfault) : faults :=
-  Faults (fun u => match find (fun p => N.eqb (fst p) u) (fst cf) with Some p => Some (snd p) | None => None end)
+  Faults (fun u => match List.find (fun p => N.eqb (fst p) u) (fst cf) with Some p => Some (snd p) | None => None end)
          (snd cf).
 
 Definition dest_same (a b : dest) : bool :=
